@@ -34,7 +34,7 @@ ASSUMPTIONS = [
 ]
 SHARDS = {"quick": 16, "thorough": 16}
 TIMEOUT = {"quick": 900, "thorough": 7200}
-MIN_CASES = {"quick": 2000, "thorough": 40000}
+MIN_CASES = {"quick": 2000, "thorough": 10000}
 REQUIRED_COUNTERS = ["advertisements_fed", "accepted_and_delivered", "replays_ignored", "forgeries_ignored", "bitflips_ignored", "state_advances_checked"]
 
 DEVICE_ID = bytes.fromhex("aabbcc001122")
